@@ -254,13 +254,14 @@ fn mutation() -> impl Strategy<Value = Mutation> {
 fn any_plan() -> impl Strategy<Value = UnitPlan> {
     let kinds = all_pull_kinds();
     let n = kinds.len();
-    (proptest::collection::vec((any::<bool>(), 0usize..n + 4), 0..7), any::<bool>(), crate::gen::plan::response(), prop_oneof![20 => Just(None), 1 => crate::gen::plan::err_spec().prop_map(Some)], prop_oneof![3 => Just(false), 1 => Just(true)]).prop_map(move |(pulls, greedy, (headers, respond), fail, swallow)| UnitPlan {
+    (proptest::collection::vec((any::<bool>(), 0usize..n + 4), 0..7), any::<bool>(), crate::gen::plan::response(), prop_oneof![20 => Just(None), 1 => crate::gen::plan::err_spec().prop_map(Some)], (prop_oneof![3 => Just(false), 1 => Just(true)], crate::gen::plan::mid_finish())).prop_map(move |(pulls, greedy, (headers, respond), fail, (swallow, mid_finish))| UnitPlan {
         pulls: pulls.into_iter().map(|(optional, k)| Pull { optional, as_: if k >= n { PullAs::All } else { kinds[k] } }).collect(),
         greedy,
         headers,
         respond,
         fail,
         swallow,
+        mid_finish,
     })
 }
 
